@@ -1,22 +1,21 @@
 import Juniper.Model.ParMap
-import Juniper.Proofs.SkeletonPar
+import Juniper.Proofs.ParMapTies
 /-! Basic facts for the `parallel.MapStream` / `MapIterator` models: the regenerated guards, channel
 capacities and `select` tables mean what the proofs assume (`Code.Sound`), clamping arithmetic. -/
 namespace Juniper.Proofs.ParMap
 open Juniper.Gen Juniper.Facts Juniper.Model.ParMap
-open Juniper.Proofs.SkeletonPar (under pskelMapStream_ties pskelMapIterator_ties)
 
-/-- The sites regenerated from `parallel.MapStream` / `mapStream.Next` / `mapStream.Close` are the
-ones the proofs are about (guards, capacities of `in` / `ready` / `c`, the four `select` tables,
-`defer s.Close()`, `defer close(in)`, `close(c)`, the token release), for bodies whose control
-skeletons (MapStream top level, dispatcher, worker, `Next`, `Close`) are the ones `Stream.step` hard-wires. -/
-theorem stream_code_sound : Stream.code.Sound :=
-  under pskelMapStream_ties (by constructor <;> first | decide | (intros; rfl))
+/-- The sites regenerated from `parallel.MapStream` / `mapStream.Next` / `mapStream.Close` are the ones the
+proofs are about (guards, capacities of `in` / `ready` / `c`, the four `select` tables, `defer s.Close()`,
+`defer close(in)`, `close(c)`, the token release, `Close` = cancel then wait, the origin of the context), for
+bodies whose control skeletons are the ones `Stream.step` hard-wires — **given** the ties `t`. The ties are
+not proved here: every property theorem supplies `stream_ties` (decided inside its own proof). -/
+theorem stream_code_sound (t : StreamTies) : Stream.code.Sound := t.sound
 
-/-- The sites regenerated from `parallel.MapIterator` / `mapIterator.Next`, for bodies whose control
-skeletons (top level, dispatcher, worker, `Next`) are the ones `Iter.step` hard-wires. -/
-theorem iter_code_sound : Iter.code.Sound :=
-  under pskelMapIterator_ties (by constructor <;> first | decide | (intros; rfl))
+/-- The sites regenerated from `parallel.MapIterator` / `mapIterator.Next` (among them the lock / cond
+discipline `Iter.sectionsAtomic`), for bodies whose control skeletons are the ones `Iter.step` hard-wires —
+**given** the ties `t` (`iter_ties`, decided inside every property theorem). -/
+theorem iter_code_sound (t : IterTies) : Iter.code.Sound := t.sound
 
 theorem loopCount_lt (cond : Int → Bool) (p : Int) (hc : ∀ j, cond j = decide (j < p)) :
     ∀ (fuel : Nat) (j : Int), 0 ≤ j → (p - j).toNat ≤ fuel → loopCount cond fuel j = (p - j).toNat := by
